@@ -74,7 +74,7 @@ func (c *c03Case) valid() bool {
 			return false
 		}
 		for _, n := range tk {
-			if n < 0 || n > 200 {
+			if n < 0 || n > 6000 {
 				return false
 			}
 		}
@@ -736,6 +736,31 @@ func c03Gen(t *rapid.T) c03Case {
 			tot[gi] += tk[gi]
 		}
 		c.Ticks = append(c.Ticks, tk)
+	}
+	if ng > 1 && !c.Ring && rapid.IntRange(0, 39).Draw(t, "backlog") == 0 {
+		// one group runs thousands of packets ahead of another over several reads before that one catches up: nothing is lost,
+		// and everything must come out
+		ahead := rapid.IntRange(1200, 1700).Draw(t, "ahead")
+		c.Ticks = nil
+		tot = make([]int, ng)
+		for k := 0; k < 3; k++ {
+			tk := make([]int, ng)
+			tk[0] = ahead
+			c.Ticks = append(c.Ticks, tk)
+			tot[0] += ahead
+		}
+		tk := make([]int, ng)
+		for gi := 1; gi < ng; gi++ {
+			tk[gi] = 3 * ahead
+			tot[gi] += 3 * ahead
+		}
+		c.Ticks = append(c.Ticks, tk)
+		last := make([]int, ng)
+		for gi := range last {
+			last[gi] = 3
+			tot[gi] += 3
+		}
+		c.Ticks = append(c.Ticks, last)
 	}
 	for gi := 0; gi < ng; gi++ {
 		maxpos := tot[gi] + 6
